@@ -228,4 +228,45 @@ def derive_scratch(index: Index):
                 it.run_entry(f, cls)
                 n += 1
     scratch = {a for a in rb.written if a not in rb.persistent and a.startswith("_")}
+    scratch |= accessor_private_attrs(index)
     return scratch, rb, n
+
+
+def accessor_private_attrs(index: Index):
+    """Attributes every access of which (self._x, self.__dict__["_x"], self.__dict__.get("_x"), getattr(self, "_x")) sits in ONE
+    function and which the tables do not know: a memo private to its accessor.  The rest of the program only ever sees what
+    the accessor returns, so the attribute is not observable state (it is treated like scratch); that the accessor's result
+    is a function of the current geometry is judged on the accessor's return value like any other query."""
+    from .model import ATTR, PRIMARY
+    from .components import CACHE_PARTS
+    cached = getattr(index, "_accessor_private", None)
+    if cached is not None:
+        return cached
+    where = {}
+    for cls in index.shape_classes():
+        fns = list(cls.methods.values()) + [x for p in cls.props.values() for x in (p.getter, p.setter) if x]
+        for f in fns:
+            for n in ast.walk(f.node):
+                name = None
+                if isinstance(n, ast.Attribute) and isinstance(n.value, ast.Name) and n.value.id == "self" and n.attr.startswith("_") \
+                        and not n.attr.startswith("__"):
+                    name = n.attr
+                elif isinstance(n, ast.Constant) and isinstance(n.value, str) and n.value.startswith("_") and not n.value.startswith("__"):
+                    name = n.value          # a string key of __dict__ / getattr / setattr
+                if name is not None:
+                    where.setdefault(name, set()).add((cls.name, f.name, id(f.node)))
+    out = set()
+    for name, sites in where.items():
+        if name in ATTR or name in PRIMARY or name in CACHE_PARTS:
+            continue
+        if len({s[2] for s in sites}) == 1:
+            # it must really be an instance attribute: stored somewhere through self
+            cname, fname, _ = next(iter(sites))
+            out.add(name)
+    # keep only names that are stored as attributes (not arbitrary string constants)
+    stored = set()
+    for cls in index.shape_classes():
+        stored |= stored_attrs(cls)
+    out &= stored
+    index._accessor_private = out
+    return out
